@@ -9,7 +9,7 @@
    what the source says now.  Values are Python-equality classes (Keys.v). *)
 From Coq Require Import List Bool Permutation.
 Import ListNotations.
-Require Import Aiuti.Keys Aiuti.KeysInv Aiuti.Case_C14 Aiuti.KeysMon AiutiGen.T_KeyExpr.
+Require Import Aiuti.Keys Aiuti.KeysInv Aiuti.Case_C14 Aiuti.KeysMon Aiuti.KeysMonN AiutiGen.T_KeyExpr.
 
 (* The translated key expression has the accepted shape (decided by
    computation on the generated, finite expression). *)
@@ -121,6 +121,17 @@ Theorem monitor_accepts_model : forall kind prefill (evs : list ev),
 Proof. intros kind prefill. exact (mon_accepts_model key_expr key_expr_is_good kind prefill). Qed.
 Print Assumptions monitor_accepts_model.
 
+(* The same for the second monitor (wrapped functions returning identity-less
+   values such as None, 0, '', False, where only the number of invocations per
+   call is observable): for every retaining store and every history of calls
+   it accepts the model's invocation counts — i.e. in the model a call invokes
+   the function iff no earlier call had the same arguments, also when the
+   cached value is None or falsy. *)
+Theorem monitor_n_accepts_model : forall kind (evs : list ev),
+  Case_C14.ok (C14N kind evs (map ninv_of (run key_expr cache_init kind false evs))) = true.
+Proof. intros kind. exact (mon_n_accepts_model key_expr key_expr_is_good kind). Qed.
+Print Assumptions monitor_n_accepts_model.
+
 (* ---- non-vacuity --------------------------------------------------------- *)
 
 (* f(1, x='a', y=(1,2)) and f(1.0, y=(1,2), x='a') have equal keys;
@@ -140,6 +151,12 @@ Example evict_example :
   run key_expr cache_init (KUser (Some 2)) false
       (pre ++ [Evict 1; Call (mksig [1] [(0, 2)]); Call (mksig [1] [(0, 2)])]) =
   [(1, 0, [0]); (1, 1, [1; 0]); (0, 0, [0; 1]); (0, 0, [0]); (1, 4, [4; 0]); (0, 4, [4; 0])].
+Proof. vm_compute. split; reflexivity. Qed.
+
+(* mon_n is not trivially true: it rejects a trace in which the third, equal call recomputes *)
+Example monitor_n_rejects :
+  Case_C14.ok (C14N KDefault [Call (mksig [0] []); Call (mksig [1] []); Call (mksig [0] [])] [1; 1; 1]) = false /\
+  Case_C14.ok (C14N KDefault [Call (mksig [0] []); Call (mksig [1] []); Call (mksig [0] [])] [1; 1; 0]) = true.
 Proof. vm_compute. split; reflexivity. Qed.
 
 Example retaining_example :
